@@ -404,10 +404,14 @@ def gen():
                         rng = s2.iter.args[0].value
                         ivar = s2.target.id
                         b = s2.body
-                        if not (len(b) == 4 and isinstance(b[0], ast.Assign) and ast.unparse(b[0].targets[0]) == "F"
-                                and ast.unparse(b[1]) == "iF = self.face_id(*F)"
-                                and ast.unparse(b[2]) == "self._adjC2F[iC].append(iF)"
-                                and ast.unparse(b[3]) == "self._adjF2C[iF].append(iC)"):
+                        ok = len(b) == 4 and isinstance(b[0], ast.Assign) and isinstance(b[0].targets[0], ast.Name) \
+                            and isinstance(b[1], ast.Assign) and isinstance(b[1].targets[0], ast.Name)
+                        if ok:
+                            fv, idv = b[0].targets[0].id, b[1].targets[0].id   # local names are free
+                            ok = (ast.unparse(b[1].value) == "self.face_id(*%s)" % fv
+                                  and ast.unparse(b[2]) == "self._adjC2F[iC].append(%s)" % idv
+                                  and ast.unparse(b[3]) == "self._adjF2C[%s].append(iC)" % idv)
+                        if not ok:
                             T.fail(VOL, s2, "tetrahedral loop of _compute_cell_adj not recognised")
                         expr = slice_concat(b[0].value, VOL, "C", {ivar: "i"})
     if arity is None or rng is None or expr is None:
